@@ -18,6 +18,26 @@ class Unsupported(Exception):
     pass
 
 
+class Infeasible(Exception):
+    """the world violates a domain requirement at this scaling (treated like a violated initial condition)"""
+    pass
+
+
+class CZero(object):
+    """PEPit.null_point: neutral element of Point addition"""
+    def __add__(self, o): return o
+    __radd__ = __add__
+    def __sub__(self, o): return -o
+    def __rsub__(self, o): return o
+    def __neg__(self): return self
+    def __mul__(self, o):
+        if isinstance(o, CP): return CE(0.0)
+        return self
+    __rmul__ = __mul__
+    def __truediv__(self, o): return self
+    def __pow__(self, k): return CE(0.0)
+
+
 # ----------------------------------------------------------------------------------- values
 def _val(x):
     return x.v if isinstance(x, CE) else float(x)
@@ -68,15 +88,19 @@ class CP(object):
         self.v = np.asarray(v, dtype=float)
 
     def __add__(self, o):
+        if isinstance(o, CZero): return self
         if not isinstance(o, CP): raise Unsupported("Point + non-point")
         return CP(self.v + o.v)
     def __sub__(self, o):
+        if isinstance(o, CZero): return self
         if not isinstance(o, CP): raise Unsupported("Point - non-point")
         return CP(self.v - o.v)
     def __neg__(self): return CP(-self.v)
     def __mul__(self, o):
         if isinstance(o, CP):
             return CE(float(np.dot(self.v, o.v)))
+        if isinstance(o, CZero):
+            return CE(0.0)
         if isinstance(o, CE):
             raise Unsupported("Point * Expression")
         return CP(self.v * float(o))
@@ -197,7 +221,7 @@ class BallIndicator(Member):
 
     def f(self, x):
         if np.linalg.norm(x - self.c) > self.r * (1 + 1e-9) + 1e-12:
-            raise Unsupported("indicator evaluated outside its domain")
+            raise Infeasible("indicator evaluated outside its domain")
         return 0.0
     def oracle(self, x):
         self.f(x.v)
@@ -232,6 +256,32 @@ class LinOp(Member):
     def prox(self, x0, gamma):     # resolvent (I + gamma A)^-1
         d = len(self.c)
         return np.linalg.solve(np.eye(d) + gamma * self.A, x0 + gamma * self.A @ self.c)
+
+
+class AffOp(LinOp):
+    """operator x -> c + A (x - c): fixed point at c"""
+    def oracle(self, x): return CP(self.c + self.A @ (x.v - self.c)), CE(0.0)
+    def argmin(self):
+        d = len(self.c)
+        if abs(np.linalg.det(self.A)) < 1e-9:
+            raise Unsupported("no unique zero")
+        return np.linalg.solve(self.A, self.A @ self.c - self.c)
+    def fixed_point(self, name=None):
+        return CP(self.c.copy()), CP(self.c.copy()), CE(0.0)
+    def prox(self, x0, gamma):
+        d = len(self.c)
+        return np.linalg.solve(np.eye(d) + gamma * self.A, x0 + gamma * (self.A @ self.c - self.c))
+
+
+class LinMat(Member):
+    """linear operator x -> M x (LinearOperator, SymmetricLinearOperator, SkewSymmetricLinearOperator)"""
+    def __init__(self, world, M, transpose_of=None):
+        self.world, self.M = world, np.asarray(M, float)
+        self.T = transpose_of if transpose_of is not None else LinMat(world, self.M.T, transpose_of=self)
+
+    def f(self, x): return 0.0
+    def oracle(self, x): return CP(self.M @ x.v), CE(0.0)
+    def argmin(self): return np.zeros(self.M.shape[1])
 
 
 class CSum(Member):
@@ -312,6 +362,7 @@ class World(object):
         c = self.center()
         r = self.rng.rand()
         b = float(self.rng.normal())
+        d = self.dim
         if name == "SmoothStronglyConvexFunction":
             return Quadratic(self, self.spectrum(mu, L), c, b)
         if name == "SmoothConvexFunction":
@@ -324,9 +375,9 @@ class World(object):
             return L1(self, self.rng.choice([0.5, 1.0, 3.0]), c, mu=mu, b=b)
         if name == "ConvexFunction":
             if r < 0.4:
-                return L1(self, self.rng.choice([0.5, 1.0, 3.0]), c, b=b)
+                return L1(self, self.rng.choice([0.05, 0.5, 1.0, 3.0]), c, b=b)
             if r < 0.7:
-                return L2Norm(self, self.rng.choice([0.5, 1.0, 3.0]), c, b)
+                return L2Norm(self, self.rng.choice([0.05, 0.5, 1.0, 3.0]), c, b)
             return Quadratic(self, self.spectrum(0.0, self.rng.choice([1.0, 5.0])), c, b)
         if name == "ConvexLipschitzFunction":
             M = kw["M"]
@@ -341,7 +392,20 @@ class World(object):
             return Quadratic(self, self.spectrum(0.0, L), c, b)
         if name == "RsiEbFunction":
             return Quadratic(self, self.spectrum(mu, L), c, b)
-        d = self.dim
+        if name == "SmoothStronglyConvexQuadraticFunction":
+            return Quadratic(self, self.spectrum(mu, L), c, b)
+        if name == "LinearOperator":
+            U, V = self.orthogonal(d), self.orthogonal(d)
+            sv = self.rng.uniform(0, L, size=d)
+            sv[0] = L
+            return LinMat(self, U @ np.diag(sv) @ V.T)
+        if name == "SymmetricLinearOperator":
+            P = self.orthogonal(d)
+            return LinMat(self, P @ np.diag(self.spectrum(mu, L)) @ P.T)
+        if name == "SkewSymmetricLinearOperator":
+            K = self.skew()
+            nrm = np.linalg.norm(K, 2)
+            return LinMat(self, K * (L / nrm if nrm > 0 else 0.0))
         if name in ("LipschitzOperator", "NonexpansiveOperator"):
             Lc = 1.0 if name == "NonexpansiveOperator" else L
             Q = self.orthogonal(d)
@@ -352,7 +416,7 @@ class World(object):
             A = Lc * Q @ np.diag(s) @ self.orthogonal(d).T
             if r > 0.7:
                 A = -A
-            return LinOp(self, A, c)
+            return AffOp(self, A, c)
         if name == "MonotoneOperator":
             P = self.orthogonal(d)
             A = P @ np.diag(self.rng.uniform(0, 2, size=d) * (self.rng.rand(d) < 0.6)) @ P.T + self.skew()
@@ -556,39 +620,64 @@ def concrete_namespace():
         raise Unsupported("direct DSL object")
     ns["Point"] = _no
     ns["Expression"] = _no
-    ns["null_point"] = None
+    ns["null_point"] = CZero()
     return ns
 
 
 def run_once(code, fname, kwargs, seed, dim, t):
-    """one concrete run; returns (max constraint violation, has_equality, achieved performance)"""
+    """one concrete run; returns (list of (kind, value) of the initial conditions, achieved performance);
+    a domain violation counts as a violated inequality"""
     w = World(seed, dim, t)
     ConcretePEP.world = w
     ns = concrete_namespace()
     exec(code, ns)
     kw = dict(kwargs)
     kw["verbose"] = -1
-    out = ns[fname](**kw)
-    perf = out[0]
-    viol = 0.0
-    for c in w.constraints:
-        if c.kind == "eq":
-            viol = max(viol, abs(c.value))
-        else:
-            viol = max(viol, c.value)
-    return viol, float(perf)
+    try:
+        out = ns[fname](**kw)
+    except Infeasible:
+        return [("le", 1.0)], float("nan")
+    return [(c.kind, c.value) for c in w.constraints], float(out[0])
+
+
+def _viol(cons):
+    return max([v for k, v in cons if k == "le"] + [0.0])
 
 
 def best_feasible_run(code, fname, kwargs, seed, dim):
-    """largest scaling t of the free points (towards the anchor) for which every initial condition holds"""
+    """scaling t of the free points (towards the anchor) for which every initial condition holds, as large as
+    found; an equality initial condition is met by bisection on t.  Returns (t, performance)."""
+    cons, perf = run_once(code, fname, kwargs, seed, dim, 4.0)
+    eqs = [i for i, (k, _) in enumerate(cons) if k == "eq"]
+    if len(eqs) > 1:
+        raise Unsupported("several equality initial conditions")
+    if eqs:
+        i = eqs[0]
+        g = lambda t: run_once(code, fname, kwargs, seed, dim, t)
+        hi, (chi, _) = 4.0, (cons, perf)
+        lo = 1e-6
+        clo, _ = g(lo)
+        if len(clo) != len(cons) or clo[i][1] * chi[i][1] > 0:
+            raise Unsupported("equality initial condition not bracketed")
+        for _ in range(60):
+            mid = (lo + hi) / 2
+            cm, pm = g(mid)
+            if cm[i][1] * clo[i][1] > 0:
+                lo, clo = mid, cm
+            else:
+                hi = mid
+        cm, pm = g(hi)
+        if abs(cm[i][1]) > 1e-9 or _viol(cm) > 1e-10:
+            raise Unsupported("equality initial condition not met")
+        return hi, pm
     t = 4.0
     feas = None
     for _ in range(40):
-        viol, perf = run_once(code, fname, kwargs, seed, dim, t)
-        if viol <= 1e-10:
+        if _viol(cons) <= 1e-10:
             feas = (t, perf)
             break
         t /= 2
+        cons, perf = run_once(code, fname, kwargs, seed, dim, t)
     if feas is None:
         raise Unsupported("no feasible scaling found")
     lo, hi = feas[0], feas[0] * 2
@@ -596,8 +685,8 @@ def best_feasible_run(code, fname, kwargs, seed, dim):
     if feas[0] < 4.0:
         for _ in range(14):
             mid = (lo + hi) / 2
-            viol, perf = run_once(code, fname, kwargs, seed, dim, mid)
-            if viol <= 1e-10:
+            cons, perf = run_once(code, fname, kwargs, seed, dim, mid)
+            if _viol(cons) <= 1e-10:
                 lo, best = mid, (mid, perf)
             else:
                 hi = mid
